@@ -618,6 +618,14 @@ def oracle_c02(res):
                 if subs[r][3] not in sent_to:
                     return (f"wrong-remote-timeout: request {r} to endpoint {subs[r][3]} failed with a retransmission "
                             f"time-out although no CON was in flight to it")
+    # a transport error reported from inside the first transmission fails that request at once
+    for (t, remote) in res.get("failed_sends", []):
+        for r, ev in subs.items():
+            if ev[1] == t and ev[3] == remote:
+                got = fl.get(r, [])
+                if not got or got[0][0] != t:
+                    return (f"send-error-swallowed: the first transmission of request {r} failed in sendmsg() at {t} "
+                            f"but the request was not failed (events: {got})")
     # unmatched confirmable responses are Reset, never delivered (delivery checked above by token/source)
     for (t, k, f) in ins:
         if k != "R" or not (64 <= int(f[3]) < 192) or (shut and t >= shut[0]):
@@ -632,7 +640,8 @@ def oracle_c02(res):
                 return f"unmatched-delivered: {mt} response token {tok} from {remote} at {t} was delivered"
             if mt == "CON" and not mcl:
                 rst = [o for o in sn if o["tick"] == t and o["remote"] == remote and o["mtype"] == "RST" and o["mid"] == mid]
-                if len(rst) != 1:
+                attempt_failed = (t, remote) in [tuple(x) for x in res.get("failed_sends", [])]
+                if len(rst) != 1 and not attempt_failed:
                     return f"no-reset: unmatched CON response mid {mid} from {remote} not answered with Reset"
     # futures: completed exactly once, errors derive from the library's base class
     for r, st in res["futures"].items():
